@@ -120,6 +120,11 @@ def parse_template(path):
             pr = BT.findall(rest)
             kv, _ = parse_kv(BT.sub('', rest))
             items.append(('strlits', dict(lits=pr[1].split('|'), lemma=kv['lemma'], label=pr[0]), i))
+        elif word == 'enumorder':
+            # R40b: a fieldless enum whose (de)serialization is serde's derive: the variant's position in the declaration is its wire value
+            pr = BT.findall(rest)
+            kv, _ = parse_kv(BT.sub('', rest))
+            items.append(('enumorder', dict(file=kv['file'], enum=kv['enum'], spec=pr[0].split(','), label=pr[1]), i))
         elif word == 'composite':
             # R40: the wire layout of a derive-macro composite, read from its declaration
             pr = BT.findall(rest)
@@ -953,6 +958,40 @@ def generate(repo, template, mode=None, isolate=False):
             out += body
             out.append('}')
             em.emit_lines([(l, org) for l in out])
+            continue
+        if it[0] == 'enumorder':
+            kv_ = it[1]
+            src_, toks_ = X.load(repo, kv_['file'])
+            a_, e_, ob_ = X.find_typedef(toks_, 'enum', kv_['enum'])
+            body_ = [t for t in X.strip_comments(toks_[ob_:e_ + 1]) if t.kind not in ('ws', 'comment')]
+            vars_ = []
+            d_ = 0
+            for q_, t_ in enumerate(body_):
+                if t_.kind == 'punct' and t_.text in '({[':
+                    d_ += 1
+                elif t_.kind == 'punct' and t_.text in ')}]':
+                    d_ -= 1
+                elif d_ == 1 and t_.kind == 'ident' and t_.text[:1].isupper() and body_[q_ - 1].kind == 'punct' and body_[q_ - 1].text in '{,]':
+                    vars_.append(t_.text)
+            spec_ = [x.strip() for x in kv_['spec']]
+            pos_ = []
+            for v_ in vars_:
+                kebab = re.sub(r'(?<!^)(?=[A-Z])', '-', v_).lower()
+                if kebab not in spec_:
+                    raise X.LostAnchor('%s: enum %s: variant `%s` is not in the table of the specification given for it' % (kv_['file'], kv_['enum'], v_))
+                pos_.append(spec_.index(kebab))
+            lo_ = re.sub(r'(?<!^)(?=[A-Z])', '_', kv_['enum']).lower()
+            org_s = dict(kind='src', fn=kv_['enum'], file=kv_['file'], line=toks_[a_].line)
+            org_t = dict(kind='tmpl', tline=it[2])
+            short_ = ' '.join(re.findall(r'\[C\d\d\.[^\]]+\]', kv_['label']))
+            out_ = [('/// enum %s (%s:%d): the specification\'s value of each variant, in DECLARATION order (serde\'s derive writes a fieldless variant as its index); variants: %s' % (kv_['enum'], kv_['file'], toks_[a_].line, ', '.join(vars_)), org_s),
+                    ('pub open spec fn %s_decl_order() -> Seq<int> { seq![%s] }' % (lo_, ', '.join('%dint' % p_ for p_ in pos_)), org_s),
+                    ('/// %s' % kv_['label'], org_t),
+                    ('pub proof fn lemma_%s_wire_values()' % lo_, org_t),
+                    ('    ensures %s_decl_order() =~= Seq::new(%d, |i: int| i),       // %s' % (lo_, len(spec_), short_), org_t),
+                    ('{}', org_t)]
+            em.emit_lines(out_)
+            types.append(dict(name='enum order ' + kv_['enum'], log=[('R40', 'enum %s: declaration order %s read from the declaration' % (kv_['enum'], vars_), toks_[a_].line)], hash=hashlib.sha256(repr(vars_).encode()).hexdigest()[:16], file=kv_['file'], line=toks_[a_].line, lines=[]))
             continue
         if it[0] == 'composite':
             r = extract_composite(repo, it[1], it[2])
